@@ -19,7 +19,7 @@
      BlockLimitPerByte      FALSE: write() tests the block limit once per loop iteration and hands the
                                    whole rest of the buffer to the block (D17)      -> TRUE
      MagicTestInverted      TRUE : try_start_next_stream rejects the byte 0xFD it looks for (D14) -> FALSE *)
-EXTENDS Naturals, Sequences, FiniteSets, TLC
+EXTENDS Integers, Sequences, FiniteSets, TLC
 
 CONSTANTS
   CheckIds,        \* check ids the environment picks from: subset of {0, 1, 4, 10}
@@ -38,11 +38,11 @@ CONSTANTS
   IndexCountsHeader, EmptyInputWritesBlock, BlockLimitPerByte, MagicTestInverted
 
 VARIABLES
-  cfg,      \* options of the stream being written: [check, limit, hsize, cz]
+  cfg,      \* options of the stream being written: [check, limit, dict, hsize, cz]
   ws,       \* writer state (counters of XZWriter)
   calls,    \* history of API calls of the stream being written (for scenario export)
   file,     \* records of everything written so far (finished streams, padding, trailing bytes)
-  streams,  \* summary of finished streams: [check, limit, hsize, units, calls, blocks]
+  streams,  \* summary of finished streams: [check, limit, dict, hsize, units, calls, recs, nb]
   pads,     \* padding chosen after each finished stream
   trail,    \* "none" / "garbage" / "pending" (not chosen yet)
   phase,    \* "write" | "env" | "read" | "done"
@@ -79,7 +79,7 @@ TrailingRec     == [k |-> "Trailing"]
 \* ---------------------------------------------------------------------------------------- writer
 W0 == [hdr |-> FALSE, open |-> FALSE, bu |-> 0, sp |-> 0, w |-> 0, recs |-> <<>>, out |-> <<>>, nb |-> 0, total |-> 0]
 
-EffLimit(c) == IF c.limit = 0 THEN 0 ELSE Max(c.limit, DictUnits)     \* XZWriter::new clamps block_size to >= dict_size
+EffLimit(c) == IF c.limit = 0 THEN 0 ELSE Max(c.limit, c.dict)     \* XZWriter::new clamps block_size to >= dict_size
 
 WriteSH(c, s) == IF s.hdr THEN s
                  ELSE [s EXCEPT !.out = Append(@, SHRec(c.check)), !.hdr = TRUE, !.w = @ + 12]
@@ -89,10 +89,12 @@ Prepare(c, s) ==
   LET sp == IF IndexCountsHeader THEN s.w ELSE s.w + c.hsize
   IN [s EXCEPT !.out = Append(@, BHRec(c.hsize)), !.w = @ + c.hsize, !.sp = sp, !.open = TRUE, !.bu = 0]
 
+CzAt(c, i) == IF i \in DOMAIN c.cz THEN c.cz[i] ELSE 1      \* compressed size of the i-th block of the stream
+
 \* finish_current_block. Without an open block (only reachable from finish() on empty input when
 \* EmptyInputWritesBlock) the chain is the bare sink: nothing is emitted but padding and the check.
 FinishBlock(c, s) ==
-  LET cs   == IF s.open THEN c.cz[Min(s.nb + 1, MaxBlocks)] ELSE 0
+  LET cs   == IF s.open THEN CzAt(c, s.nb + 1) ELSE 0
       w1   == s.w + cs
       comp == w1 - s.sp                                  \* block_compressed_size as coded
       pad  == Pad4(comp)
@@ -123,7 +125,7 @@ DoFinish(c, s) ==
       ix == IndexRec(s2.recs)
   IN [s2 EXCEPT !.out = Append(Append(@, ix), FooterRec(IndexSize(s2.recs))), !.w = @ + IndexSize(s2.recs) + 12]
 
-Cfgs == [check : CheckIds, limit : LimitOpts, hsize : HSizes, cz : [1..MaxBlocks -> CSizes]]
+Cfgs == [check : CheckIds, limit : LimitOpts, dict : {DictUnits}, hsize : HSizes, cz : [1..MaxBlocks -> CSizes]]
 
 RD0 == [st |-> "idle", pos |-> 1, blocks |-> 0, out |-> 0, bytes |-> 0, multi |-> FALSE, check |-> 0, nstreams |-> 0]
 
@@ -147,7 +149,7 @@ Finish ==
   /\ phase = "write"
   /\ LET s == DoFinish(cfg, ws) IN
        /\ file' = file \o s.out
-       /\ streams' = Append(streams, [check |-> cfg.check, limit |-> cfg.limit, hsize |-> cfg.hsize, units |-> ws.total,
+       /\ streams' = Append(streams, [check |-> cfg.check, limit |-> cfg.limit, dict |-> cfg.dict, hsize |-> cfg.hsize, units |-> ws.total,
                                       calls |-> Append(calls, <<"x", 0>>), recs |-> s.out, nb |-> s.nb])
   /\ phase' = "env" /\ ws' = W0 /\ calls' = <<>>
   /\ UNCHANGED <<cfg, pads, trail, rd>>
@@ -285,18 +287,19 @@ RECURSIVE SumSeq(_, _)
 SumSeq(s, i) == IF i > Len(s) THEN 0 ELSE s[i] + SumSeq(s, i + 1)
 
 \* ---------------------------------------------------------------------------------------- properties
+\* (the stream-level properties are evaluated in the state right after Finish, phase = "env": `streams` only changes there)
 \* every stream the writer finishes is a well-formed .xz stream (C02 / C03)
-WellFormed == \A i \in 1..Len(streams) : WellFormedF(streams[i].recs)
+WellFormed == phase = "env" => \A i \in 1..Len(streams) : WellFormedF(streams[i].recs)
 \* the blocks of a stream hold exactly the units written, in order (C02: nothing lost or duplicated)
-Content == \A i \in 1..Len(streams) : SumSeq(BlockUs(streams[i].recs, 1), 1) = streams[i].units
+Content == phase = "env" => \A i \in 1..Len(streams) : SumSeq(BlockUs(streams[i].recs, 1), 1) = streams[i].units
 \* C18: every block holds at most max(block_size, dict) units
-SizeLimit == \A i \in 1..Len(streams) :
+SizeLimit == phase = "env" => \A i \in 1..Len(streams) :
                streams[i].limit # 0 =>
-                 \A j \in 1..Len(BlockUs(streams[i].recs, 1)) : BlockUs(streams[i].recs, 1)[j] <= Max(streams[i].limit, DictUnits)
+                 \A j \in 1..Len(BlockUs(streams[i].recs, 1)) : BlockUs(streams[i].recs, 1)[j] <= Max(streams[i].limit, streams[i].dict)
 \* C18 (exactness, as for the LZIP writer): with a limit every block but the last is full
-BlocksFull == \A i \in 1..Len(streams) :
+BlocksFull == phase = "env" => \A i \in 1..Len(streams) :
                streams[i].limit # 0 =>
-                 LET us == BlockUs(streams[i].recs, 1) IN \A j \in 1..(Len(us) - 1) : us[j] = Max(streams[i].limit, DictUnits)
+                 LET us == BlockUs(streams[i].recs, 1) IN \A j \in 1..(Len(us) - 1) : us[j] = Max(streams[i].limit, streams[i].dict)
 
 Done == phase = "done"
 TotalUnits == SumSeq([i \in 1..Len(streams) |-> streams[i].units], 1)
